@@ -121,14 +121,176 @@ def run(ctx):
     if (res.get("coverage") or {}).get("api_errors"):
         ctx.notes.append("API errors: %s" % res["coverage"]["api_errors"][:3])
 
-    # (V) and (M)
-    try:
-        import importlib.util
-        p = os.path.join(os.path.dirname(os.path.abspath(__file__)), "c09_model.py")
-        if os.path.exists(p):
-            spec = importlib.util.spec_from_file_location("c09_model", p)
-            mod = importlib.util.module_from_spec(spec)
-            spec.loader.exec_module(mod)
-            mod.run(ctx, trace, thorough)
-    except vlib.Inconclusive:
-        raise
+    # (V) the recorded syscall sequences against the implementation-level model
+    validate_traces(ctx, trace)
+
+    # (M) the implementation-level model against the property, at every kill point
+    model_check(ctx, thorough)
+
+
+# --------------------------------------------------------------------------- (V)
+
+DROP = {"Bolt", "WriteCache", "CreateCache", "SyncFragment", "SyncOther", "Open", "Mkdir"}
+UNIT_ACTS = {"AppendOp", "AppendOpRoaring", "AppendOpHeader", "AppendOpPayload", "CreateSnapTmp", "WriteSnapChunk",
+             "RenameSnap", "CreateFragmentFile", "InitFragment"}
+PLAIN_ACTS = {"CreateMetaTmp", "WriteMetaTmp", "RenameMeta", "TranslateWrite", "TranslateSync"}
+
+
+def begin_event(step, evs_of_step):
+    """The model's view of an API call: write kind, fields it may touch, entries per fragment."""
+    op = step["op"]
+    fld = step.get("fld")
+    kind, key, budget = "bit", False, {}
+    if op == "SetBit":
+        if fld == "m":
+            kind, budget = "multi", {"i/m": 2, "i/_exists": 1}     # clear of the old row + set
+        else:
+            budget = {"i/" + fld: 1, "i/_exists": 1}
+    elif op == "SetTime":
+        budget = {"i/t": 1, "i/_exists": 1}
+    elif op == "ClearBit":
+        budget = {"i/" + fld: 1}
+    elif op == "SetValue":
+        kind, budget = "multi", {"i/v": 16, "i/_exists": 1}       # one entry per bit row
+    elif op in ("SetKeyed", "ImportKeyed"):
+        key, budget = True, {"k/kf": 1, "k/_exists": 1}
+    elif op == "ImportRoaring":
+        kind, budget = "roaring", {"i/f": 1}
+    elif op == "Import":
+        if fld == "m" and not step.get("clear"):
+            kind, budget = "batch2", {"i/m": 2, "i/_exists": 1}
+        else:
+            budget = {"i/" + fld: 1, "i/_exists": 1}
+    elif op == "ImportValue":
+        # the code chooses the small (op log) or the large (memory + awaited snapshot) path
+        # from MaxOpN; the path taken is read off the trace, then validated
+        small = any(e.get("act", "").startswith("AppendOp") and e.get("unit", "").startswith("i/v/") for e in evs_of_step)
+        if small:
+            kind, budget = "batch2", {"i/v": 2, "i/_exists": 1}
+        else:
+            kind, budget = "large", {"i/v": 0, "i/_exists": 1}
+    elif op in ("Store", "ClearRow"):
+        kind, budget = "rowop", {"i/" + (fld or "f"): 0}
+    return {"e": "Begin", "kind": kind, "key": key, "fields": sorted(budget), "budget": budget,
+            "meta": "i/v" if op in ("SetValue", "ImportValue") else "", "op": op}
+
+
+def history_events(h):
+    """events.json of one history -> model events between the OPEN and QUIET markers."""
+    evs = h["events"]
+    out = []
+    started = False
+    # events of each step, for the path look-ahead of ImportValue
+    by_step = {}
+    for e in evs:
+        if e.get("kind") == "fs":
+            by_step.setdefault(e.get("op", 0), []).append(e)
+    for e in evs:
+        if e.get("kind") == "mark":
+            w = e["text"].split(" ")
+            if w[1] == "OPEN":
+                started = True
+            elif w[1] == "QUIET":
+                break
+            elif w[1] == "BEGIN" and started:
+                k = int(w[2])
+                out.append(begin_event(h["steps"][k - 1], by_step.get(k, [])))
+            elif w[1] in ("ACK", "ERR") and started:
+                out.append({"e": "Ack"})
+            continue
+        if not started:
+            continue
+        act = e.get("act", "")
+        if act in DROP or (act == "WriteOther" and e.get("path") == ".startup.log"):
+            continue
+        if act in UNIT_ACTS:
+            u = e["unit"]
+            out.append({"e": "AppendOp" if act == "AppendOpRoaring" else act, "u": u, "fld": "/".join(u.split("/")[:2])})
+        elif act in PLAIN_ACTS:
+            out.append({"e": act})
+        else:
+            out.append({"e": "Unmodelled:" + act, "path": e.get("path", "")})
+    return out
+
+
+def validate_traces(ctx, trace_path):
+    if not os.path.exists(trace_path):
+        ctx.inconclusive.append("the driver recorded no syscall traces")
+        return
+    hists = json.load(open(trace_path))
+    groups = {"default": [], "maxopn": []}
+    for h in hists:
+        g = "maxopn" if (h["steps"] and h["steps"][0].get("maxopn")) else "default"
+        groups[g].append(h)
+    accepted = 0
+    drift = []
+    for g, hs in groups.items():
+        hs = list(hs)
+        for attempt in range(4):
+            if not hs:
+                break
+            lines, owner = [], []
+            for h in hs:
+                evs = [{"e": "Reset"}] + history_events(h)
+                for e in evs:
+                    lines.append(json.dumps(e))
+                    owner.append(h["hist"])
+            path = os.path.join(ctx.scratch, "trace_%s_%d.ndjson" % (g, attempt))
+            open(path, "w").write("\n".join(lines) + "\n")
+            r = vlib.tlc("TraceDurability", "TraceDurability_" + g, ctx.scratch, mode="bfs", workers=1,
+                         files={"trace.ndjson": path}, timeout=900)
+            ctx.tlc_runs.append(("TraceDurability", "TraceDurability_" + g, r))
+            m = None
+            for line in r.out_tail.splitlines():
+                mm = __import__("re").search(r'"TRACE-CONSUMED", (\d+), (\d+)', line)
+                if mm:
+                    m = (int(mm.group(1)), int(mm.group(2)))
+            if m is None:
+                ctx.inconclusive.append("trace validation (%s) gave no result:\n%s" % (g, r.out_tail[-1500:]))
+                break
+            vlib.log("TLC(V) TraceDurability/%s: %d of %d events accepted, %d states, %.1fs"
+                     % (g, m[0], m[1], r.distinct, r.wall_s))
+            if m[0] == m[1]:
+                accepted += len(hs)
+                break
+            bad = owner[m[0]]                      # history of the first event that could not be consumed
+            ev = json.loads(lines[m[0]])
+            hb = [h for h in hs if h["hist"] == bad][0]
+            drift.append("history %d (%s): the model has no step for event #%d %s"
+                         % (bad, " ; ".join(s["op"] for s in hb["steps"]), m[0], json.dumps(ev)))
+            hs = [h for h in hs if h["hist"] != bad]
+    ctx.validated += accepted
+    ctx.extra_cov["traces_accepted_by_TraceDurability"] = accepted
+    ctx.extra_cov["traces_rejected_by_TraceDurability"] = len(drift)
+    for d in drift:
+        print("MODEL-DRIFT property=C09 " + d[:600], flush=True)
+        ctx.notes.append("MODEL-DRIFT: " + d)
+
+
+# --------------------------------------------------------------------------- (M)
+
+# cfg -> (expected counterexample?, what it says)
+MC_QUICK = [
+    ("C09_mc_quick", False, "code as it is now, 2 writes of every kind x 2 fragments (1 bit) x translate store: RestartSucceeds, AckedDurable, LeftoversIgnored at every kill point"),
+    ("C09_mc_multi", True, "multi-entry writes (int Set, value import, mutex Set/import): InflightAtomicPerShard fails (open findings)"),
+]
+MC_THOROUGH = [
+    ("C09_mc_fixed", False, "as C09_mc_quick with 2 bits per fragment"),
+    ("C09_mc_atomic", False, "single-entry / roaring / row-op writes: InflightAtomicPerShard holds and the model refines DurabilityAbs"),
+    ("C09_mc_deep", False, "4 writes (1 bit, kinds bit/roaring/rowop)"),
+    ("C09_mc_asfound_restart", True, "code as found: a kill after the roaring header write blocks restart"),
+    ("C09_mc_asfound_translate", True, "code as found: a kill inside a chunked translate entry blocks restart"),
+    ("C09_mc_asfound_acked", True, "code as found: Store/ClearRow acknowledged before the snapshot"),
+]
+
+
+def model_check(ctx, thorough):
+    for cfg, expect_cex, what in MC_QUICK + (MC_THOROUGH if thorough else []):
+        r = ctx.modelcheck("DurabilityMC", cfg, timeout=900)
+        got = bool(r.violation)
+        if got != expect_cex:
+            # the design model no longer says what design/C09.md records: a stale model, not a verdict
+            ctx.inconclusive.append("(M) %s: %s counterexample (%s)\n%s"
+                                    % (cfg, "unexpected" if got else "missing expected", what, (r.violation or "")[:1500]))
+        ctx.notes.append("(M) %s: %s — %d distinct states, %s" % (cfg, what, r.distinct,
+                                                               "counterexample (hypothesis, see design/C09.md)" if got else "no counterexample"))
